@@ -290,8 +290,12 @@ func checkC20A(sc *SplineCase) (o *Outcome) {
 			reenter := bisectBoundary(cp, float64(b+1)/N, float64(b)/N, rs, outEps)
 			// a crossing is ignored by the fitter's containment test when it is next to a barrier end, or at the piece's
 			// own end (curve parameter < 1e-6 or > 1 - 1e-6)
-			okLeave := nearVertex(cp.curvep(leave)) || leave < 1e-4
-			okReenter := nearVertex(cp.curvep(reenter)) || reenter > 1-1e-4
+			// "at the piece's own end" is judged in space, not in the parameter: a curve that runs just outside a wall
+			// towards an end point ON that wall crosses the 1e-9 threshold at a parameter that depends on how flat it
+			// approaches (a first version used t < 1e-4 / t > 1 - 1e-4 and raised two alarms in 8 M cases, which were K2)
+			lp, rp := cp.curvep(leave), cp.curvep(reenter)
+			okLeave := nearVertex(lp) || math.Hypot(lp.X-cp.p0.X, lp.Y-cp.p0.Y) <= k2VertexDist
+			okReenter := nearVertex(rp) || math.Hypot(rp.X-cp.p3.X, rp.Y-cp.p3.Y) <= k2VertexDist
 			if !okLeave || !okReenter {
 				k2 = false
 			}
